@@ -1,1 +1,353 @@
-//! C06 — (harnesses not written yet)
+//! C06 — typed reads agree with generic reads; shape type identity is consistent.
+use crate::env::*;
+use crate::model::*;
+use crate::refcodec::*;
+use shapefile::record::{ConcreteReadableShape, HasShapeType, ReadableShape, WritableShape};
+use shapefile::*;
+
+/// Minimal structure for a type code (Poly: one part of 2; Multipoint: 2 points;
+/// Multipatch: one triangle strip of 3).
+fn minimal(code: i32) -> Model {
+    match family(code) {
+        Some(Family::Point) | Some(Family::Null) => Model::with_structure(code, &[]),
+        Some(Family::Multipoint) => Model::with_structure(code, &[2]),
+        Some(Family::Multipatch) => Model::with_structure(code, &[3]),
+        _ => Model::with_structure(code, &[2]),
+    }
+}
+
+// ---- (i) identity --------------------------------------------------------------------
+
+/// Shape::from(c).shapetype() == C::shapetype() == the code written in the record and in
+/// the header; C::try_from(Shape::from(c)) gives back c bit for bit.
+fn identity<S: TShape + Clone>() {
+    let mut m = minimal(S::CODE);
+    sym_vertices(&mut m);
+    assume_xy_not_nan(&m);
+    let c = S::build(&m);
+    let built = c.extract();
+    assert!(<S as HasShapeType>::shapetype() as i32 == S::CODE);
+    // the code the writer puts in the header and the record
+    let mut shp = MemFile::<320>::new();
+    {
+        let mut w = ShapeWriter::new(&mut shp);
+        let r = w.write_shape(&c);
+        assert!(r.is_ok());
+        std::mem::forget(r);
+    }
+    assert!(get_i32_le(&shp.buf, 32) == S::CODE);
+    assert!(get_i32_le(&shp.buf, 108) == S::CODE);
+    let sh: Shape = c.into();
+    assert!(sh.shapetype() as i32 == S::CODE, "generic value reports another type than its concrete type");
+    assert!(S::of_shape(&sh).is_some());
+    let back = S::try_from(sh);
+    match &back {
+        Ok(t) => {
+            let got = t.extract();
+            assert!(same_structure(&built, &got));
+            assert!(same_vertices(&built, &got, true, 1));
+            assert!(same_bbox(&built, &got, 0, 8));
+            kani::cover!(true, "converted into Shape and back");
+        }
+        Err(_) => assert!(false, "try_from of the matching variant failed"),
+    }
+    std::mem::forget(back);
+}
+
+macro_rules! ident {
+    ($name:ident, $T:ty) => {
+        #[kani::proof]
+        #[kani::unwind(22)]
+        fn $name() {
+            identity::<$T>();
+        }
+    };
+}
+// H: tier=quick; sym=Point coords; asserts=Shape::from(c).shapetype()==C::shapetype()==record/header code; try_from(Shape::from(c)) is c bit for bit
+ident!(c06_q_identity_point, Point);
+// H: tier=quick; sym=PointM coords; asserts=type identity and Shape round trip
+ident!(c06_q_identity_pointm, PointM);
+// H: tier=quick; sym=PointZ coords; asserts=type identity and Shape round trip
+ident!(c06_q_identity_pointz, PointZ);
+// H: tier=quick; sym=Polyline [2] coords; asserts=type identity and Shape round trip
+ident!(c06_q_identity_polyline, Polyline);
+// H: tier=quick; sym=PolylineM [2] coords; asserts=type identity and Shape round trip
+ident!(c06_q_identity_polylinem, PolylineM);
+// H: tier=quick; sym=PolylineZ [2] coords; asserts=type identity and Shape round trip
+ident!(c06_q_identity_polylinez, PolylineZ);
+// H: tier=quick; sym=Multipoint 2 coords; asserts=type identity and Shape round trip
+ident!(c06_q_identity_multipoint, Multipoint);
+// H: tier=quick; sym=MultipointM 2 coords; asserts=type identity and Shape round trip
+ident!(c06_q_identity_multipointm, MultipointM);
+// H: tier=quick; sym=MultipointZ 2 coords; asserts=type identity and Shape round trip
+ident!(c06_q_identity_multipointz, MultipointZ);
+// H: tier=quick; sym=Multipatch strip 3 coords; asserts=type identity and Shape round trip
+ident!(c06_q_identity_multipatch, Multipatch);
+
+fn polygon_identity<S: TShape>() {
+    // closed clockwise square with concrete XY and end vertices; interior Z/M symbolic
+    let mut m = Model::with_structure(S::CODE, &[5]);
+    sym_vertices(&mut m);
+    let xy: [[f64; 2]; 5] = [[0.0, 0.0], [0.0, 4.0], [4.0, 4.0], [4.0, 0.0], [0.0, 0.0]];
+    let mut j = 0;
+    while j < 5 {
+        m.v[j][0] = xy[j][0];
+        m.v[j][1] = xy[j][1];
+        j += 1;
+    }
+    m.v[0][2] = 1.0;
+    m.v[0][3] = 2.0;
+    m.v[4][2] = 1.0;
+    m.v[4][3] = 2.0;
+    let c = S::build(&m);
+    let built = c.extract();
+    assert!(<S as HasShapeType>::shapetype() as i32 == S::CODE);
+    let sh: Shape = c.into();
+    assert!(sh.shapetype() as i32 == S::CODE);
+    let back = S::try_from(sh);
+    match &back {
+        Ok(t) => {
+            let got = t.extract();
+            assert!(same_structure(&built, &got));
+            assert!(same_vertices(&built, &got, true, 1));
+            assert!(same_bbox(&built, &got, 0, 8));
+            kani::cover!(true, "converted into Shape and back");
+        }
+        Err(_) => assert!(false),
+    }
+    std::mem::forget(back);
+}
+// H: tier=quick; sym=none for Polygon (concrete closed square); asserts=type identity and Shape round trip
+#[kani::proof]
+#[kani::unwind(22)]
+fn c06_q_identity_polygon() {
+    polygon_identity::<Polygon>();
+}
+// H: tier=quick; sym=M of 3 interior vertices; asserts=type identity and Shape round trip
+#[kani::proof]
+#[kani::unwind(22)]
+fn c06_q_identity_polygonm() {
+    polygon_identity::<PolygonM>();
+}
+// H: tier=quick; sym=Z,M of 3 interior vertices; asserts=type identity and Shape round trip
+#[kani::proof]
+#[kani::unwind(22)]
+fn c06_q_identity_polygonz() {
+    polygon_identity::<PolygonZ>();
+}
+// H: tier=quick; sym=none; asserts=Shape::NullShape reports NullShape (code 0)
+#[kani::proof]
+fn c06_q_identity_null() {
+    let s = Shape::NullShape;
+    assert!(s.shapetype() as i32 == 0);
+    kani::cover!(true, "null shape");
+}
+
+// ---- (ii) requested S x actual T ------------------------------------------------------
+
+/// Encode a minimal record content of type `t` with symbolic payload, independent encoder.
+fn content_of(t: i32, buf: &mut [u8; 256]) -> usize {
+    let mut m = minimal(t);
+    sym_vertices(&mut m);
+    let mut i = 0;
+    while i < 8 {
+        m.bbox[i] = any_f64();
+        i += 1;
+    }
+    if t == T_MULTIPATCH {
+        m.pkind[0] = 0;
+    }
+    enc_content(&m, buf, 0)
+}
+
+/// For every actual type T (concrete loop over the 14 codes): the typed read as S of a
+/// T-record is Ok exactly when T == S and then equals the generic read; otherwise it is
+/// MismatchShapeType{requested: S, actual: T} and never a value.
+fn row<S: TShape>() {
+    let mut k = 0;
+    while k < 14 {
+        let t = ALL_CODES[k];
+        let mut buf = [0u8; 256];
+        let len = content_of(t, &mut buf);
+        let mut src = MemSource::with_len(&buf, len);
+        let typed = S::read_from(&mut src, len as i32);
+        let mut src2 = MemSource::with_len(&buf, len);
+        let generic = Shape::read_from(&mut src2, len as i32);
+        match &generic {
+            Ok(sh) => {
+                assert!(sh.shapetype() as i32 == t, "generic value reports another type than its record");
+            }
+            Err(_) => assert!(false, "generic read of a well-formed record failed"),
+        }
+        if t == S::CODE {
+            match (&typed, &generic) {
+                (Ok(a), Ok(sh)) => match S::of_shape(sh) {
+                    Some(b) => {
+                        let ma = a.extract();
+                        let mb = b.extract();
+                        assert!(same_structure(&ma, &mb));
+                        assert!(same_vertices(&ma, &mb, true, 1));
+                        assert!(same_bbox(&ma, &mb, 0, 8));
+                        kani::cover!(true, "typed == generic on the diagonal");
+                    }
+                    None => assert!(false, "generic read produced another variant"),
+                },
+                _ => assert!(false, "typed read of its own type failed"),
+            }
+        } else {
+            match &typed {
+                Err(Error::MismatchShapeType { requested, actual }) => {
+                    assert!(*requested as i32 == S::CODE);
+                    assert!(*actual as i32 == t);
+                }
+                Ok(_) => assert!(false, "typed read yielded a value of the wrong type"),
+                Err(_) => assert!(false, "typed read failed with another error than a type mismatch"),
+            }
+        }
+        std::mem::forget(typed);
+        std::mem::forget(generic);
+        k += 1;
+    }
+}
+
+macro_rules! rowh {
+    ($name:ident, $T:ty) => {
+        #[kani::proof]
+        #[kani::unwind(22)]
+        fn $name() {
+            row::<$T>();
+        }
+    };
+}
+// H: tier=quick; sym=payload of 14 minimal records (one per type code); requested=Point; asserts=typed Ok iff actual==requested and equal to generic; else MismatchShapeType{requested,actual}; generic value's shapetype()==record code
+rowh!(c06_q_row_point, Point);
+// H: tier=quick; sym=payload of 14 minimal records; requested=MultipointM; asserts=as row_point
+rowh!(c06_q_row_multipointm, MultipointM);
+// H: tier=quick; sym=payload of 14 minimal records; requested=MultipointZ; asserts=as row_point
+rowh!(c06_q_row_multipointz, MultipointZ);
+// H: tier=quick; sym=payload of 14 minimal records; requested=PolylineZ; asserts=as row_point
+rowh!(c06_q_row_polylinez, PolylineZ);
+// H: tier=thorough; sym=payload of 14 minimal records; requested=PointM; asserts=as row_point
+rowh!(c06_t_row_pointm, PointM);
+// H: tier=thorough; sym=payload of 14 minimal records; requested=PointZ; asserts=as row_point
+rowh!(c06_t_row_pointz, PointZ);
+// H: tier=thorough; sym=payload of 14 minimal records; requested=Polyline; asserts=as row_point
+rowh!(c06_t_row_polyline, Polyline);
+// H: tier=thorough; sym=payload of 14 minimal records; requested=PolylineM; asserts=as row_point
+rowh!(c06_t_row_polylinem, PolylineM);
+// H: tier=thorough; sym=payload of 14 minimal records; requested=Polygon; asserts=as row_point
+rowh!(c06_t_row_polygon, Polygon);
+// H: tier=thorough; sym=payload of 14 minimal records; requested=PolygonM; asserts=as row_point
+rowh!(c06_t_row_polygonm, PolygonM);
+// H: tier=thorough; sym=payload of 14 minimal records; requested=PolygonZ; asserts=as row_point
+rowh!(c06_t_row_polygonz, PolygonZ);
+// H: tier=thorough; sym=payload of 14 minimal records; requested=Multipoint; asserts=as row_point
+rowh!(c06_t_row_multipoint, Multipoint);
+// H: tier=thorough; sym=payload of 14 minimal records; requested=Multipatch; asserts=as row_point
+rowh!(c06_t_row_multipatch, Multipatch);
+
+// ---- conversion matrix on values: S::try_from(Shape of variant T) ----------------------
+
+fn mk_shape(code: i32) -> Shape {
+    let mut m = minimal(code);
+    sym_vertices(&mut m);
+    assume_xy_not_nan(&m);
+    match code {
+        T_POINT => Point::build(&m).into(),
+        T_POINTM => PointM::build(&m).into(),
+        T_POINTZ => PointZ::build(&m).into(),
+        T_POLYLINE => Polyline::build(&m).into(),
+        T_POLYLINEM => PolylineM::build(&m).into(),
+        T_POLYLINEZ => PolylineZ::build(&m).into(),
+        T_MULTIPOINT => Multipoint::build(&m).into(),
+        T_MULTIPOINTM => MultipointM::build(&m).into(),
+        T_MULTIPOINTZ => MultipointZ::build(&m).into(),
+        T_MULTIPATCH => Multipatch::build(&m).into(),
+        T_POLYGON => polygon_from_parts::<Point>(&m).into(),
+        T_POLYGONM => polygon_from_parts::<PointM>(&m).into(),
+        T_POLYGONZ => polygon_from_parts::<PointZ>(&m).into(),
+        _ => Shape::NullShape,
+    }
+}
+
+/// For every variant T (concrete loop): S::try_from(shape of variant T) is Ok iff T == S,
+/// else MismatchShapeType{requested: S, actual: T}.
+fn convert_row<S: TShape>() {
+    let mut k = 0;
+    while k < 14 {
+        let t = ALL_CODES[k];
+        let sh = mk_shape(t);
+        let r = S::try_from(sh);
+        match &r {
+            Ok(_) => assert!(t == S::CODE),
+            Err(Error::MismatchShapeType { requested, actual }) => {
+                assert!(t != S::CODE);
+                assert!(*requested as i32 == S::CODE);
+                assert!(*actual as i32 == t, "conversion error names another actual type than the value's variant");
+            }
+            Err(_) => assert!(false),
+        }
+        std::mem::forget(r);
+        k += 1;
+    }
+    kani::cover!(true, "all 14 variants offered");
+}
+macro_rules! convh {
+    ($name:ident, $T:ty) => {
+        #[kani::proof]
+        #[kani::unwind(22)]
+        fn $name() {
+            convert_row::<$T>();
+        }
+    };
+}
+// H: tier=quick; sym=coords of 13 minimal values + NullShape; requested=Point; asserts=try_from Ok iff same variant else MismatchShapeType{requested: Point, actual: variant's type}
+convh!(c06_q_convert_point, Point);
+// H: tier=quick; sym=coords of 13 minimal values + NullShape; requested=PolygonZ; asserts=as convert_point
+convh!(c06_q_convert_polygonz, PolygonZ);
+// H: tier=thorough; sym=coords of 13 minimal values + NullShape; requested=Multipatch; asserts=as convert_point
+convh!(c06_t_convert_multipatch, Multipatch);
+// H: tier=thorough; sym=coords of 13 minimal values + NullShape; requested=MultipointZ; asserts=as convert_point
+convh!(c06_t_convert_multipointz, MultipointZ);
+// H: tier=thorough; sym=coords of 13 minimal values + NullShape; requested=PolylineM; asserts=as convert_point
+convh!(c06_t_convert_polylinem, PolylineM);
+
+// ---- (iii) bulk conversion -------------------------------------------------------------
+
+// H: tier=quick; sym=coordinates of 3 shapes; structure=all 8 assignments of {Point, PointZ} to 3 positions (concrete loop); asserts=convert_shapes_to_vec_of::<Point> is Ok with the 3 points in order iff all are Point; otherwise MismatchShapeType{requested: Point, actual: PointZ}
+#[kani::proof]
+#[kani::unwind(22)]
+fn c06_q_bulk_conversion() {
+    let mut mask = 0u8;
+    while mask < 8 {
+        let mut v: Vec<Shape> = Vec::with_capacity(3);
+        let mut xs = [0.0f64; 3];
+        let mut i = 0;
+        while i < 3 {
+            let x = any_f64_not_nan();
+            xs[i] = x;
+            if mask & (1 << i) == 0 {
+                v.push(Shape::Point(Point::new(x, 1.0)));
+            } else {
+                v.push(Shape::PointZ(PointZ::new(x, 1.0, 2.0, 3.0)));
+            }
+            i += 1;
+        }
+        let r = convert_shapes_to_vec_of::<Point>(v);
+        match &r {
+            Ok(pts) => {
+                assert!(mask == 0);
+                assert!(pts.len() == 3);
+                assert!(beq(pts[0].x, xs[0]) && beq(pts[1].x, xs[1]) && beq(pts[2].x, xs[2]));
+            }
+            Err(Error::MismatchShapeType { requested, actual }) => {
+                assert!(mask != 0);
+                assert!(*requested as i32 == T_POINT && *actual as i32 == T_POINTZ);
+            }
+            Err(_) => assert!(false),
+        }
+        std::mem::forget(r);
+        mask += 1;
+    }
+    kani::cover!(true, "all 8 assignments converted");
+}
